@@ -7,11 +7,15 @@
    C20_nedge_pinned_refuted in Suites/STopology.v.
 
    (Rust snippets in comments are written without the reference derefs.)
-   usize is 64 bit.  `x.powf(2.0)` is a libm call: on the pinned toolchain it
-   differs from x*x in the last bit whenever x*x is not exactly representable
-   (e.g. x = 5791), so it is modelled through the oracle ([libm2 FN_POWF]),
-   not as [fmul x x].  No arithmetic here depends on the build profile
-   (`i as i32`, `as u32` are wrapping casts; checked_pow never panics). *)
+   usize is 64 bit.  `x.powf(2.0)` depends on the build: the debug binary calls
+   libm's powf, which on the pinned toolchain differs from x*x in the last bit
+   whenever x*x is not exactly representable (e.g. x = 5791); in the release
+   binary LLVM rewrites pow(x, 2.0) into x * x.  Both were observed through
+   euclidean_distance (coordinate differences above 4096 give different last
+   bits in the two builds), so the squared term is [sq_term p]: the oracle
+   ([libm2 FN_POWF]) under Debug, [fmul x x] under Release.  Nothing else here
+   depends on the profile (`i as i32`, `as u32` are wrapping casts; checked_pow
+   never panics). *)
 From Coq Require Import ZArith List Bool Lia.
 From PushModel Require Import Base.Sx Base.Machine Base.F32.
 Import ListNotations.
@@ -66,16 +70,21 @@ Section Topology.
          let mut dist = 0.0;
          for i in 0..i1.len() { dist += (i1[i] as f32 - i2[i] as f32).powf(2.0); }
          Some(f32::sqrt(dist)) } *)
-  Fixpoint sqsum (acc : f32) (l1 l2 : list Z) : res f32 :=
+  Definition sq_term (p : profile) (x : f32) : res f32 :=
+    match p with
+    | Debug => libm2 FN_POWF x f_two
+    | Release => Ok (fmul x x)
+    end.
+  Fixpoint sqsum (p : profile) (acc : f32) (l1 l2 : list Z) : res f32 :=
     match l1, l2 with
     | a :: r1, b :: r2 =>
-        let! s := libm2 FN_POWF (fsub (f_of_usize a) (f_of_usize b)) f_two in
-        sqsum (fadd acc s) r1 r2
+        let! s := sq_term p (fsub (f_of_usize a) (f_of_usize b)) in
+        sqsum p (fadd acc s) r1 r2
     | _, _ => Ok acc
     end.
-  Definition euclidean_distance (i1 i2 : list Z) : res (option f32) :=
+  Definition euclidean_distance (p : profile) (i1 i2 : list Z) : res (option f32) :=
     if negb (Nat.eqb (length i1) (length i2)) then Ok None
-    else let! s := sqsum f_zero i1 i2 in Ok (Some (fsqrt s)).
+    else let! s := sqsum p f_zero i1 i2 in Ok (Some (fsqrt s)).
 
   (* ---- edge length (repaired code) ----
        fn edge_length(ntotal: usize, ndim: usize) -> usize {
@@ -114,7 +123,7 @@ Section Topology.
                        if dist <= radius { neighbors.push(i as i32); } } } }
            return Some(IntVector::new(neighbors));
        } else { return None; } *)
-  Fixpoint nbr_scan (nedge ndim : Z) (dindex : list Z) (radius : f32) (k : nat) (i : Z) : res (list Z) :=
+  Fixpoint nbr_scan (p : profile) (nedge ndim : Z) (dindex : list Z) (radius : f32) (k : nat) (i : Z) : res (list Z) :=
     match k with
     | O => Ok []
     | S k' =>
@@ -123,34 +132,34 @@ Section Topology.
           match odi with
           | None => Ok false
           | Some di =>
-              let! od := euclidean_distance dindex di in
+              let! od := euclidean_distance p dindex di in
               match od with
               | None => Ok false
               | Some dist => Ok (fle dist radius)
               end
           end in
-        let! rest := nbr_scan nedge ndim dindex radius k' (i + 1) in
+        let! rest := nbr_scan p nedge ndim dindex radius k' (i + 1) in
         Ok (if keep then usize_as_i32 i :: rest else rest)
     end.
 
-  Definition find_neighbors_with (nedge : Z) (ntotal ndim index : Z) (radius : f32) : res (option (list Z)) :=
+  Definition find_neighbors_with (p : profile) (nedge : Z) (ntotal ndim index : Z) (radius : f32) : res (option (list Z)) :=
     let! od := decompose_index index nedge ndim in
     match od with
     | None => Ok None
     | Some dindex =>
-        let! l := nbr_scan nedge ndim dindex radius (Z.to_nat ntotal) 0 in
+        let! l := nbr_scan p nedge ndim dindex radius (Z.to_nat ntotal) 0 in
         Ok (Some l)
     end.
 
   Definition nbr_guard (ntotal ndim index : Z) (radius : f32) : bool :=
     flt radius f_zero || (ndim <? 1) || (ntotal <? 1) || (ntotal <? index).
 
-  Definition find_neighbors (ntotal ndim index : Z) (radius : f32) : res (option (list Z)) :=
+  Definition find_neighbors (p : profile) (ntotal ndim index : Z) (radius : f32) : res (option (list Z)) :=
     if nbr_guard ntotal ndim index radius then Ok None
-    else find_neighbors_with (edge_length ntotal ndim) ntotal ndim index radius.
+    else find_neighbors_with p (edge_length ntotal ndim) ntotal ndim index radius.
 
-  Definition find_neighbors_pinned (ntotal ndim index : Z) (radius : f32) : res (option (list Z)) :=
+  Definition find_neighbors_pinned (p : profile) (ntotal ndim index : Z) (radius : f32) : res (option (list Z)) :=
     if nbr_guard ntotal ndim index radius then Ok None
     else let! nedge := nedge_pinned ntotal ndim in
-         find_neighbors_with nedge ntotal ndim index radius.
+         find_neighbors_with p nedge ntotal ndim index radius.
 End Topology.
